@@ -932,7 +932,7 @@ def write_evidence(prop, tier, seed, cfg, results, died, known, known_hits, repo
             "scenario_classes": classes,
             "components": cfg.get("components", {}),
             "workers_died_or_killed": len(died),
-            "budget_kills_not_reproduced": len(UNATTRIBUTED),
+            "candidates_not_attributed": len(UNATTRIBUTED),
             "known_findings": [{"id": e["id"], "confirmed_by_replay": bool(e.get("_confirmed")), "matched_runs": known_hits.get(e["id"], 0)} for e in known],
             "violation_fingerprints": [{"kind": fp[0], "site": fp[1], "replay": rp} for fp, rp, _ in reported],
             "budget_exhausted": timed_out,
